@@ -79,15 +79,17 @@ fn pad<const N: usize>(v: &[u8]) -> [u8; N] {
 fn verify<T: HashLike>(l: &mut Local, mode: Mode, h: &T, m: &HV, hist: &[String], full_eq: impl Fn(&T, &T) -> bool) {
     l.eval(1);
     let sig = |what: &str| format!("{}|{}|{}|{}", if mode == Mode::Validity { "C11" } else { "C15" }, T::NAME, what, hist.join(";"));
+    if let Ok(Some(why)) = guard(|| h.accessors_inconsistent()) {
+        if h.valid() {
+            l.violation("accessors", sig("accessors"), format!("{}: array / length accessors disagree with the slice accessors after [{}]: {}", T::NAME, hist.join("; "), why));
+        }
+    }
     match mode {
         Mode::Validity => {
             if !l.check(h.valid(), "is_valid", || {
                 (sig("invalid"), format!("{} failed is_valid() after history [{}]: {:?}", T::NAME, hist.join("; "), h))
             }) {
                 return;
-            }
-            if let Ok(Some(why)) = guard(|| h.accessors_inconsistent()) {
-                l.violation("accessors", sig("accessors"), format!("{}: array / length accessors disagree with the slice accessors after [{}]: {}", T::NAME, hist.join("; "), why));
             }
             // structural equality must agree with == against an independently built equal value
             let stored = guard(|| h.stored());
@@ -162,7 +164,7 @@ macro_rules! v {
     ($l:expr, $mode:expr, $st:expr, ld) => { verify($l, $mode, &$st.ld, &$st.mld, &$st.log, feq_ld) };
 }
 
-pub const N_OPS: u64 = 64;
+pub const N_OPS: u64 = 72;
 
 /// Applies one random operation.  A library panic inside an in-contract call
 /// propagates to the stream runner's totality monitor.
@@ -710,6 +712,82 @@ pub fn step_op(l: &mut Local, mode: Mode, st: &mut St, rng: &mut Rng, words: &Wo
             st.lr = LongRawFuzzyHash::new_from_internals(3u32 << m.log, &m.bh1, &m.bh2);
             st.mlr = m;
             v!(l, mode, st, lr);
+        }
+        // ------------------------------------------------ Clone::clone_from onto live (dirty) objects
+        64 => {
+            let m = hashes::gen_hv(rng, 32, true);
+            note!("f.clone_from({})", m.text());
+            let src = FuzzyHash::new_from_internals_near_raw(m.log, &m.bh1, &m.bh2);
+            st.f.clone_from(&src);
+            st.mf = m;
+            st.dirty_ops += 1;
+            v!(l, mode, st, f);
+        }
+        65 => {
+            let m = hashes::gen_hv(rng, 32, false);
+            note!("r.clone_from({})", m.text());
+            let src = RawFuzzyHash::new_from_internals_near_raw(m.log, &m.bh1, &m.bh2);
+            st.r.clone_from(&src);
+            st.mr = m;
+            st.dirty_ops += 1;
+            v!(l, mode, st, r);
+        }
+        66 => {
+            let m = hashes::gen_hv(rng, 64, true);
+            note!("lf.clone_from({})", m.text());
+            let src = LongFuzzyHash::new_from_internals_near_raw(m.log, &m.bh1, &m.bh2);
+            st.lf.clone_from(&src);
+            st.mlf = m;
+            st.dirty_ops += 1;
+            v!(l, mode, st, lf);
+        }
+        67 => {
+            let m = hashes::gen_hv(rng, 64, false);
+            note!("lr.clone_from({})", m.text());
+            let src = LongRawFuzzyHash::new_from_internals_near_raw(m.log, &m.bh1, &m.bh2);
+            st.lr.clone_from(&src);
+            st.mlr = m;
+            st.dirty_ops += 1;
+            v!(l, mode, st, lr);
+        }
+        68 => {
+            let m = hashes::gen_hv(rng, 32, false);
+            note!("d.clone_from({})", m.text());
+            let src = DualFuzzyHash::new_from_internals_near_raw(m.log, &m.bh1, &m.bh2);
+            st.d.clone_from(&src);
+            st.md = m;
+            st.dirty_ops += 1;
+            v!(l, mode, st, d);
+        }
+        69 => {
+            let m = hashes::gen_hv(rng, 64, false);
+            note!("ld.clone_from({})", m.text());
+            let src = LongDualFuzzyHash::new_from_internals_near_raw(m.log, &m.bh1, &m.bh2);
+            st.ld.clone_from(&src);
+            st.mld = m;
+            st.dirty_ops += 1;
+            v!(l, mode, st, ld);
+        }
+        70 | 71 => {
+            // comparison target: clone_from onto the live target / clone of a fresh one
+            let m = hashes::gen_hv(rng, 64, true);
+            note!("t.{}(target of {})", if op == 70 { "clone_from" } else { "=clone" }, m.text());
+            let src = FuzzyHashCompareTarget::from(LongFuzzyHash::new_from_internals_near_raw(m.log, &m.bh1, &m.bh2));
+            if op == 70 {
+                st.t.clone_from(&src);
+            } else {
+                st.t = src.clone();
+            }
+            st.dirty_ops += 1;
+            l.eval(1);
+            let hist = st.log.join("; ");
+            l.check(st.t.is_valid(), "target-is_valid", || {
+                (format!("C11|target|invalid|{}", hist), format!("FuzzyHashCompareTarget failed is_valid() after [{}]", hist))
+            });
+            let fresh = FuzzyHashCompareTarget::from(LongFuzzyHash::new_from_internals_near_raw(m.log, &m.bh1, &m.bh2));
+            l.check(st.t.full_eq(&fresh), "target-full_eq", || {
+                (format!("C11|target|full_eq|{}", hist), format!("copied FuzzyHashCompareTarget is not structurally equal to a fresh one for {} after [{}]", m.text(), hist))
+            });
         }
         _ => {
             // all slots re-verified (quiescent point)
